@@ -4,6 +4,7 @@ from . import common, engine, genprops
 
 def run(pid, tier, seed, own):
     q = tier == 'quick'
+    two = 'C08' not in own          # C12 is about two-sided runs only
     rep = common.Report(pid, tier, seed)
     pool = engine.Pool()
     try:
@@ -11,14 +12,14 @@ def run(pid, tier, seed, own):
         if 'C08' in own:
             genprops.spread_stage(rep, pool, tier)
         traces = genprops.collect(rep, pool, tier, seed, perturb=False, nseeds=1 if q else 6, maxn=2, rich=True,
-                                  label='counts <= 2, rich optional domains')
+                                  label='counts <= 2, rich optional domains', only_twosided=two)
         traces += genprops.collect(rep, pool, tier, seed + 1, perturb=False, nseeds=1 if q else 4, maxn=3, rich=False,
-                                   label='counts <= 3')
+                                   label='counts <= 3', only_twosided=two)
         # quotas / targets / projects per lecturer with every kind of remainder (n2 mod n3 in 0..n3-1)
         traces += genprops.collect(rep, pool, tier, seed + 3, perturb=False, nseeds=1, maxn=2, rich=False, types={'spa'},
-                                   counts={'n1': {2}, 'n2': {5, 6, 7}, 'n3': {4, 5}}, label='spread stress: n2 in 5..7, n3 in 4..5')
+                                   counts={'n1': {2}, 'n2': {5, 6, 7}, 'n3': {4, 5}}, label='spread stress: n2 in 5..7, n3 in 4..5', only_twosided=two)
         if not q:
-            traces += genprops.collect(rep, pool, tier, seed + 2, perturb=False, nseeds=1, maxn=4, rich=False, label='counts <= 4')
+            traces += genprops.collect(rep, pool, tier, seed + 2, perturb=False, nseeds=1, maxn=4, rich=False, label='counts <= 4', only_twosided=two)
         # the possibility statement "every list length in [pmin, pmax] can occur": extra seeds for some vectors
         cand = {}
         for t in traces:
